@@ -456,6 +456,19 @@ class TypeEngine:
                     todo.append(k2)
         return {k[0] for k in seen}
 
+    def reached_from_functions(self, fis) -> Set[str]:
+        """functions reached from every analysed context of the given functions (context-sensitive call graph)"""
+        quals = {f.qual for f in fis}
+        todo = [k for k in self.memo if k[0] in quals]
+        seen = set(todo)
+        while todo:
+            k = todo.pop()
+            for k2 in self.ctx_edges.get(k, ()):
+                if k2 not in seen:
+                    seen.add(k2)
+                    todo.append(k2)
+        return {k[0] for k in seen}
+
     def targets_in(self, fi: FunctionInfo, expr: ast.AST) -> Set[str]:
         out: Set[str] = set()
         for n in ast.walk(expr):
